@@ -582,6 +582,7 @@ def handlePositiveAckProcedures (env : Env) (recurse : DM Unit) : DM Unit := do
 /-- `_handle_waiting_for_finished_ack` (dest.py:771-791) -/
 def handleWaitingForFinishedAck (env : Env) (pkt : Option Pdu) (recurse : DM Unit) : DM Unit :=
   match pkt with
+  | some (.eof ..) => prepareEofAckPacket        -- the ACK of the EOF was lost: acknowledge again
   | some (.ack ..) => resetInternal false
   | _ => handlePositiveAckProcedures env recurse
 
@@ -610,6 +611,7 @@ def fsmFromWaitingForMissingData (env : Env) (pkt : Option Pdu) (recurse : DM Un
     | some (.fd _ off data) =>
       handleFdPdu env off data
       if (← getP).deferredActive then resetNakActivityParameters env
+    | some (.eof ..) => prepareEofAckPacket      -- the ACK of the EOF was lost: acknowledge again
     | _ => pure ()
     deferredLostSegmentHandling env
   fsmFromTransferCompletion env pkt recurse
